@@ -781,7 +781,7 @@ def run(ctx):
     """Called by props.c01.run."""
     run_corpus(ctx)
     rng = ctx.rng
-    nf, nh = ctx.scale(6, 30), ctx.scale(14, 60)
+    nf, nh = ctx.scale(8, 30), ctx.scale(16, 60)
     for k in range(nf):
         fseed = rng.randrange(1 << 30)
         hid0 = dict(kind='win', fseed=fseed, hseed=0, nops=0)
